@@ -79,14 +79,15 @@ theorem C04_no_epoch_reuse_engine {P : Program} (hP : P.WF) {evs : List Event} {
     (∀ k, (s.db.res k).builtAt ≤ s.epoch ∧ (s.db.res k).computedAt ≤ s.epoch) :=
   ⟨(reach_invC hP hrun hnd).memE, (reach_inv hP hrun hnd).dbE⟩
 
-/-- Every committed row whose signature is one the client program can give the rule (`SigOf`: the only
-rows the engine ever reuses — a row with any other signature is re-run, reason 1) describes a
+/-- Every committed row the engine may reuse (`Reusable`: its signature is one the client program can
+give the rule and the rule can accept a stored value at all — a row with any other signature is re-run,
+reason 1, a row of a rule that never accepts its stored value is re-run, reason 2) describes a
 completed execution of that program together with the dependency list of that same execution (the
 ghost record `GoodRec`); and the recorded dependencies of EVERY committed row are epoch-sound. -/
 theorem C04_committed_rows_good {P : Program} (hP : P.WF) {evs : List Event} {s : St}
     (hrun : run P {} evs = some s) (hnd : s.pendingDropped = false) :
     ∀ k, (s.cdb.res k).builtAt ≠ 0 →
-      (SigOf P k (s.cdb.res k).sig → GoodRec P s.cdb k) ∧ FreshRec s.cdb [] k := by
+      (Reusable P k (s.cdb.res k).sig → GoodRec P s.cdb k) ∧ FreshRec s.cdb [] k := by
   intro k hk
   exact (reach_invC hP hrun hnd).dbGood k hk
 
